@@ -222,10 +222,11 @@ def run(ctx):
             ctx.regime('exact-plant' if e == 0 else 'noisy-plant')
             ctx.regime('av0:at-bound' if a0 in (lo, hi) else 'av0:interior')
             # the block of this source in the text output
-            blk_hdr = lines[li].split() if li < len(lines) else []
-            nfits_txt = int(blk_hdr[2]) if len(blk_hdr) == 3 and blk_hdr[0] == p_['name'] else None
+            # (located by content, so extra header or comment lines do not matter)
+            li = next((i_ for i_, l_ in enumerate(lines) if l_.split()[:1] == [p_['name']] and len(l_.split()) == 3), None)
+            blk_hdr = lines[li].split() if li is not None else []
+            nfits_txt = int(blk_hdr[2]) if len(blk_hdr) == 3 and c09._isint(blk_hdr[2]) else None
             first_row = lines[li + 1] if nfits_txt else None
-            li += 1 + (nfits_txt or 0)
             # rank 1 is the planted model, with the reference fitter's numbers
             r1 = str(rec.model_name[0]).strip()
             if r1 != names[m0]:
